@@ -1,2 +1,18 @@
-(* placeholder until the theorems are integrated *)
-From SE Require Import Model.System.
+(* C03 - Every scrape succeeds and is a consistent exposition.
+   gather_ok (Model/ClientGolang.v) models the checks Registry.Gather applies to unchecked
+   collectors: legal names, one help and one type per family, no _sum/_count/_bucket collisions,
+   legal and unique label names, no duplicate series.  The text encode -> parse round trip is
+   executed by the harness on every scrape (not modelled). *)
+From SE Require Import Spec.PipelineSpec Proofs.PipelineProofs.
+
+(* After ANY history, with any sound mapping cache, every scrape succeeds - provided the binary's
+   own collectors are consistent and no exposed series uses one of their names (known finding
+   builtin-collector-name-collision). *)
+Theorem C03_scrape_ok : forall pf uni_word re_match heur_bt re_compiles CS c_get c_add c_reset builtins,
+  stmt_scrape_ok pf uni_word re_match heur_bt re_compiles CS c_get c_add c_reset builtins.
+Proof. intros. unfold stmt_scrape_ok. intros. eapply scrape_ok_ok; eauto. Qed.
+Print Assumptions C03_scrape_ok.
+
+(* the premise is satisfiable: without built-in collectors it is vacuous *)
+Example C03_no_builtins : gather_ok [] = true.
+Proof. reflexivity. Qed.
